@@ -1120,7 +1120,10 @@ Error query_rw_info(Arch arch, const BaseInst& inst, const Operand_* operands, s
 
         if (operands[0].is_gp() && operands[1].is_imm()) {
           const Reg& o0 = operands[0].as<Reg>();
-          out->_operands[0].reset(W | RegM, o0.size());
+
+          // `mov m64, imm` only exists with a sign-extended 32-bit immediate, a 64-bit immediate requires a register.
+          bool can_use_mem = o0.size() < 8u || Support::is_int_n<32>(operands[1].as<Imm>().value());
+          out->_operands[0].reset(can_use_mem ? W | RegM : W, o0.size());
           out->_operands[1].reset();
 
           rw_zero_extend_gp(out->_operands[0], operands[0].as<Gp>(), native_gp_size);
